@@ -138,7 +138,8 @@ Record rconn := mkrc {
   rc_buf : bytes;       (* readBuf *)
   rc_max : Z;           (* maxBufSize; <= 0: unlimited *)
   rc_registered : bool; (* still in Handler.streams *)
-  rc_rclosed : bool     (* read side closed: readers see end-of-file after the buffer *)
+  rc_rclosed : bool;    (* read side closed: readers see end-of-file after the buffer *)
+  rc_werr : bool        (* write side: a data packet was refused; bufio.Writer and the encoder keep that error *)
 }.
 
 (* all connections ever created on the handler; registered ones are looked up by sid *)
@@ -146,7 +147,7 @@ Definition handler := list rconn.
 
 Definition new_conn (sid : bytes) (bs : N) : rconn :=
   let bs' := (if (bs =? 0)%N then ibb_block_size else bs) in
-  mkrc sid bs' 0 [] (Z.of_N ibb_max_buffer) true false.
+  mkrc sid bs' 0 [] (Z.of_N ibb_max_buffer) true false false.
 
 (* the application's handle on a connection survives deregistration *)
 Fixpoint find_conn (h : handler) (sid : bytes) : option rconn :=
@@ -183,7 +184,7 @@ Definition payload_conn (c : rconn) (iq : bool) (seq : N) (data : bytes) : rconn
        | None => (c, RErr BadRequest)
        | Some d =>
            (mkrc (rc_sid c) (rc_bs c) (seq_next (rc_seq c)) (rc_buf c ++ d) (rc_max c)
-                 (rc_registered c) (rc_rclosed c),
+                 (rc_registered c) (rc_rclosed c) (rc_werr c),
             if iq then RAck else RSilent)
        end.
 
@@ -195,15 +196,19 @@ Definition handle_payload (h : handler) (iq : bool) (sid : bytes) (seq : N) (dat
   end.
 
 Definition set_rclosed (c : rconn) : rconn :=
-  mkrc (rc_sid c) (rc_bs c) (rc_seq c) (rc_buf c) (rc_max c) false true.
+  mkrc (rc_sid c) (rc_bs c) (rc_seq c) (rc_buf c) (rc_max c) false true (rc_werr c).
 
 (* SetReadBuffer *)
 Definition set_max (max : Z) (c : rconn) : rconn :=
   let m := if ((max <? Z.of_N (rc_bs c)) && (0 <? max))%Z then Z.of_N (rc_bs c) else max in
-  mkrc (rc_sid c) (rc_bs c) (rc_seq c) (rc_buf c) m (rc_registered c) (rc_rclosed c).
+  mkrc (rc_sid c) (rc_bs c) (rc_seq c) (rc_buf c) m (rc_registered c) (rc_rclosed c) (rc_werr c).
 
 Definition take_read (n : nat) (c : rconn) : rconn :=
-  mkrc (rc_sid c) (rc_bs c) (rc_seq c) (skipn n (rc_buf c)) (rc_max c) (rc_registered c) (rc_rclosed c).
+  mkrc (rc_sid c) (rc_bs c) (rc_seq c) (skipn n (rc_buf c)) (rc_max c) (rc_registered c) (rc_rclosed c) (rc_werr c).
+
+(* a data packet of the local writer was refused by the peer: the error sticks *)
+Definition set_werr (c : rconn) : rconn :=
+  mkrc (rc_sid c) (rc_bs c) (rc_seq c) (rc_buf c) (rc_max c) (rc_registered c) (rc_rclosed c) true.
 
 Inductive event :=
 | EOpenLocal (sid : bytes) (bs : N) (accepted : bool)   (* Handler.Open/OpenIQ; the peer's reply is result / error *)
@@ -211,6 +216,7 @@ Inductive event :=
 | EData (iq : bool) (sid : bytes) (seq : N) (data : bytes)
 | ERead (sid : bytes) (n : nat)                         (* Conn.Read with a buffer of n > 0 bytes, issued when it cannot block *)
 | ESetMax (sid : bytes) (max : Z)
+| EWrite (sid : bytes) (accepted : bool)                 (* Conn.Write of one block + Flush; the peer acknowledges / refuses the data packet *)
 | ECloseRemote (sid : bytes)                            (* a close request arrives *)
 | ECloseLocal (sid : bytes).                            (* Conn.Close; the peer answers *)
 
@@ -218,6 +224,7 @@ Inductive obs :=
 | OOpen (ok : bool)
 | OReply (r : reply)
 | ORead (data : bytes) (eof : bool)
+| OWrite (ok : bool)  (* Write and Flush both returned nil *)
 | OBlocked            (* the read would block: the harness never issues such a read *)
 | ONone.
 
@@ -239,6 +246,15 @@ Definition h_step (h : handler) (e : event) : handler * obs :=
           end
       end
   | ESetMax sid max => (update h sid (set_max max), ONone)
+  | EWrite sid accepted =>
+      match find_conn h sid with
+      | None => (h, ONone)
+      | Some c =>
+          if rc_rclosed c then (h, OWrite false)        (* closed: io.EOF *)
+          else if rc_werr c then (h, OWrite false)      (* the earlier error again; nothing is sent *)
+          else if accepted then (h, OWrite true)
+          else (update h sid set_werr, OWrite false)
+      end
   | ECloseRemote sid =>
       match lookup h sid with
       | None => (h, OReply (RErr ItemNotFound))
@@ -284,12 +300,18 @@ Definition payload_conn_pinned (c : rconn) (iq : bool) (seq : N) (data : bytes) 
   if negb (seq =? rc_seq c)%N then (c, RErr UnexpectedRequest)
   else
     let adv b := mkrc (rc_sid c) (rc_bs c) (seq_next (rc_seq c)) b (rc_max c)
-                      (rc_registered c) (rc_rclosed c) in
+                      (rc_registered c) (rc_rclosed c) (rc_werr c) in
     if negb (fits c data) then (adv (rc_buf c), RErr ResourceConstraint)
     else match decode_go data with
          | None => (adv (rc_buf c ++ decoded_prefix (length data) (strip_newlines data)), RErr BadRequest)
          | Some d => (adv (rc_buf c ++ d), if iq then RAck else RSilent)
          end.
+
+(* The close request on main before the repair (kept for the record): the
+   handler returned the buffered writer's stale error, Serve ended with it and
+   the request stayed unanswered (None). *)
+Definition close_remote_reply_stale (c : rconn) : option reply :=
+  if rc_werr c then None else Some RAck.
 
 (* the bytes an application reads from sid over a run *)
 Fixpoint reads_of (sid : bytes) (es : list event) (os : list obs) : bytes :=
@@ -538,6 +560,7 @@ Definition obs_eqb (a b : obs) : bool :=
   | OOpen x, OOpen y => Bool.eqb x y
   | OReply x, OReply y => reply_eqb x y
   | ORead d e, ORead d' e' => bytes_eqb d d' && Bool.eqb e e'
+  | OWrite x, OWrite y => Bool.eqb x y
   | OBlocked, OBlocked | ONone, ONone => true
   | _, _ => false
   end.
